@@ -39,6 +39,7 @@ Qed.
 Definition shape1b (l : list pev1) : bool :=
   match l with
   | [] | [PForm1] | [PForm1; PRev1 0 _] | [PRev1 _ _] | [PSucc1] | [PFail1] => true
+  | [PForm1; PRev1 0 _; PSucc1] | [PForm1; PRev1 0 _; PFail1] => true
   | _ => false
   end.
 Definition shape2b (l : list pev2) : bool :=
@@ -50,7 +51,7 @@ Definition shape2b (l : list pev2) : bool :=
   end.
 Lemma shape1b_sound l : shape1b l = true -> shape1 l.
 Proof.
-  destruct l as [|[|o n| |] [|[|o2 n2| |] [|e3 t3]]]; cbn; try discriminate; auto.
+  destruct l as [|[|o n| |] [|[|o2 n2| |] [|[|o3 n3| |] [|e4 t4]]]]; cbn; try discriminate; auto.
   all: destruct o2; cbn; try discriminate; auto.
 Qed.
 Lemma shape2b_sound l : shape2b l = true -> shape2 l.
